@@ -3,14 +3,15 @@ import Ggql.Driver.Tables
 namespace Ggql.Driver.C15
 open Ggql
 
-/-- D32 (hand-set): descriptions are printed raw (no escaping) — a backslash or `"""` does not re-parse.
-    D33: `ggqlgen -w / -e` write `root.Types()` only: directive definitions are lost. -/
-def d32 : Bool := true
+/-- D32 (read from `writeDesc` by the translator): descriptions are printed raw (no escaping) — a backslash or
+    `"""` does not re-parse.
+    D33 (hand-set): `ggqlgen -w / -e` write `root.Types()` only: directive definitions are lost. -/
 def d33 : Bool := true
 
 /-- case: (c15 hasBackslash hasTriple hasDirectiveDef);
     obs: (obs wholeAccepted wholeSame wholeFixedPoint toolAccepted toolSame) -/
-def handle (_tb : Tables) (c impl : T) : String :=
+def handle (tb : Tables) (c impl : T) : String :=
+  let d32 := tb.descRaw
   match c with
   | .node "c15" [bs, tq, dir, used] =>
     (match bs.asBool, tq.asBool, dir.asBool, used.asBool with
@@ -41,6 +42,6 @@ def handle (_tb : Tables) (c impl : T) : String :=
      | _, _, _, _ => "bad-op")
   | _ => "bad-op"
 
-def flags (_tb : Tables) : List (String × Bool) := [("D32", d32), ("D33", d33)]
+def flags (tb : Tables) : List (String × Bool) := [("D32", tb.descRaw), ("D33", d33)]
 
 end Ggql.Driver.C15
